@@ -87,7 +87,12 @@ def generate(cls, rng):
             live.remove(h)
             ops.append(["close", h])
         else:
-            ops.append(RL.gen_query(rng, finite=True, maxidx=30))
+            q = RL.gen_query(rng, finite=True, maxidx=30)
+            if rng.random() < 0.35:
+                # aim at member instants, excluded ones included
+                q = [["mem"] + a[1:] if isinstance(a, list) and a and
+                     a[0] == "at" else a for a in q]
+            ops.append(q)
     return dict(init=init, ops=ops)
 
 
@@ -205,6 +210,7 @@ def execute(cls, scenario, ctx):
         exc.update(model["exdate"])
         if inc & exc:
             ctx.probe("excluded_occurrence")
+        RL.MEMBER_INSTANTS = sorted(inc | exc)
         return sorted(inc - exc)
 
     for r in init["rrules"]:
